@@ -5,6 +5,7 @@ import (
 	"bytes"
 	"context"
 	"fmt"
+	"math"
 	"net/http"
 	"net/http/httptest"
 	"os"
@@ -323,6 +324,149 @@ func httpFamilies() {
 	res.Sample(map[string]any{"family": "http", "path": "/v2/raw", "enc": "deflate", "body": []byte{0x0a, 0x12, 0xff}})
 }
 
+// ---- structured request bodies: well-formed protobuf of every shape the schema allows for one series
+// (absent / empty / populated repeated fields, absent inner messages, odd numbers, odd tags), posted in
+// ordered pairs under each encoding; whatever the endpoint accepts and dispatches is consumed the way
+// the server consumes it - merged into one real aggregator, flushed, reset, flushed again - because a
+// crash there terminates the process just as a crash in the request handler would.
+
+func structuredShapes() []*pb.RawMessageV2 {
+	var out []*pb.RawMessageV2
+	tagLists := [][]string{nil, {"t"}, {""}, {"gsd_histogram:1_5"}, {"gsd_histogram:x"}}
+	nan, inf := math.NaN(), math.Inf(1)
+	_ = inf
+	k := 0
+	pick := func() ([]string, string) {
+		k++
+		return tagLists[k%len(tagLists)], []string{"", "h"}[k%2]
+	}
+	for _, v := range []int64{0, 5, math.MinInt64} {
+		t, h := pick()
+		out = append(out, &pb.RawMessageV2{Counters: map[string]*pb.CounterTagV2{"n": {TagMap: map[string]*pb.RawCounterV2{"": {Value: v, Tags: t, Hostname: h}}}}})
+	}
+	for _, v := range []float64{0, nan, inf} {
+		t, h := pick()
+		out = append(out, &pb.RawMessageV2{Gauges: map[string]*pb.GaugeTagV2{"n": {TagMap: map[string]*pb.RawGaugeV2{"": {Value: v, Tags: t, Hostname: h}}}}})
+	}
+	for _, vs := range [][]float64{nil, {}, {1}, {nan}, {3, math.Inf(-1), 2}} {
+		for _, sc := range []float64{0, 1, -1, nan} {
+			for _, t := range tagLists {
+				if len(t) == 1 && t[0] == "" && sc != 0 {
+					continue
+				}
+				out = append(out, &pb.RawMessageV2{Timers: map[string]*pb.TimerTagV2{"n": {TagMap: map[string]*pb.RawTimerV2{"": {Values: vs, SampleCount: sc, Tags: t}}}}})
+			}
+		}
+	}
+	for _, vs := range [][]string{nil, {}, {""}, {"a"}, {"a", "a", "b"}} {
+		t, h := pick()
+		out = append(out, &pb.RawMessageV2{Sets: map[string]*pb.SetTagV2{"n": {TagMap: map[string]*pb.RawSetV2{"": {Values: vs, Tags: t, Hostname: h}}}}})
+		out = append(out, &pb.RawMessageV2{Sets: map[string]*pb.SetTagV2{"n": {TagMap: map[string]*pb.RawSetV2{"": {Values: vs}}}}})
+	}
+	// absent inner messages and empty names
+	out = append(out,
+		&pb.RawMessageV2{},
+		&pb.RawMessageV2{Counters: map[string]*pb.CounterTagV2{"n": {}}, Gauges: map[string]*pb.GaugeTagV2{"n": {}}, Timers: map[string]*pb.TimerTagV2{"n": {}}, Sets: map[string]*pb.SetTagV2{"n": {}}},
+		&pb.RawMessageV2{Counters: map[string]*pb.CounterTagV2{"n": {TagMap: map[string]*pb.RawCounterV2{"": {}}}}, Sets: map[string]*pb.SetTagV2{"n": {TagMap: map[string]*pb.RawSetV2{"": {}}}}, Timers: map[string]*pb.TimerTagV2{"n": {TagMap: map[string]*pb.RawTimerV2{"": {}}}}, Gauges: map[string]*pb.GaugeTagV2{"n": {TagMap: map[string]*pb.RawGaugeV2{"": {}}}}},
+		&pb.RawMessageV2{Counters: map[string]*pb.CounterTagV2{"": {TagMap: map[string]*pb.RawCounterV2{"x": {Value: 1}}}}},
+	)
+	return out
+}
+
+func consume(ag statsd.Aggregator, what string) (panicked string) {
+	defer func() {
+		if p := recover(); p != nil {
+			panicked = fmt.Sprintf("%s: %v\n%s", what, p, debug.Stack())
+		}
+	}()
+	for _, m := range httpRec.Maps {
+		ag.ReceiveMap(m)
+	}
+	return ""
+}
+
+func flushTwice(ag statsd.Aggregator) (panicked string) {
+	defer func() {
+		if p := recover(); p != nil {
+			panicked = fmt.Sprintf("flush: %v\n%s", p, debug.Stack())
+		}
+	}()
+	for r := 0; r < 2; r++ {
+		ag.Flush(time.Second)
+		ag.Process(func(m *gostatsd.MetricMap) { _ = fx.Snapshot(m) })
+		ag.Reset()
+	}
+	return ""
+}
+
+func httpStructured() {
+	shapes := structuredShapes()
+	var bodies [][]byte
+	for _, m := range shapes {
+		b, err := proto.Marshal(m)
+		if err != nil {
+			panic(err)
+		}
+		bodies = append(bodies, b)
+	}
+	res.Info["structured_bodies"] = len(bodies)
+	var i int64
+	for a := range bodies {
+		for b := range bodies {
+			i++
+			if !vrt.Mine(i) {
+				continue
+			}
+			for _, enc := range []string{"-", "deflate", "lz4"} {
+				res.Evaluations++
+				progress.Add(1)
+				ag := statsd.NewMetricAggregator([]float64{90}, time.Hour, time.Hour, time.Hour, time.Hour, gostatsd.TimerSubtypes{}, 10)
+				rp := map[string]any{"kind": "http-structured", "enc": enc, "a": a, "b": b}
+				desc := fmt.Sprintf("POST /v2/raw enc=%q of %v then of %v", enc, shapes[a], shapes[b])
+				current.Store(desc)
+				failed := false
+				for _, body := range [][]byte{bodies[a], bodies[b]} {
+					data := body
+					var buf bytes.Buffer
+					switch enc {
+					case "deflate":
+						web.CompressWithZlib(body, &buf, 1)
+						data = buf.Bytes()
+					case "lz4":
+						web.CompressWithLz4(body, &buf, 1)
+						data = buf.Bytes()
+					}
+					httpRec.Reset()
+					code, p := post("/v2/raw", enc, data)
+					if p != "" {
+						res.Violate("http-panic "+keyOfPanic(p), desc+" panicked: "+p, rp)
+						failed = true
+						break
+					}
+					if code != 202 {
+						res.Violate("http-structured-status", fmt.Sprintf("%s: a well-formed message was answered %d", desc, code), rp)
+						failed = true
+						break
+					}
+					if p := consume(ag, "merging what the endpoint dispatched"); p != "" {
+						res.Violate("http-accepted-body-crashes-pipeline "+keyOfPanic(p), desc+": "+p, rp)
+						failed = true
+						break
+					}
+				}
+				if failed {
+					continue
+				}
+				if p := flushTwice(ag); p != "" {
+					res.Violate("http-accepted-body-crashes-flush "+keyOfPanic(p), desc+": "+p, rp)
+					continue
+				}
+				nontrivial++
+			}
+		}
+	}
+}
+
 func watchdog() {
 	last := int64(-1)
 	stuck := 0
@@ -359,6 +503,9 @@ func main() {
 		case "http":
 			setupHTTP()
 			httpCase(rp.Bytes)
+		case "http-structured":
+			setupHTTP()
+			httpStructured()
 		}
 		for _, v := range res.Violations {
 			fmt.Println(v.Key, "\n ", v.Msg)
@@ -376,6 +523,7 @@ func main() {
 		datagramFamilies()
 	case "http":
 		httpFamilies()
+		httpStructured()
 	}
 	res.DistinctNontrivial = nontrivial
 	res.States = res.Evaluations
